@@ -190,6 +190,10 @@ def longestContained (s : Str) : Str → List Str → Str
     let m : Str := if contains s x then x else []
     longestContained s (if m.length > cur.length then m else cur) xs
 
+/-- `if baseSequenceLength != "" { split := Split(TrimSpace(…), " "); if len(split) == 2 { length, coding = split[0], split[1] } }` -/
+def lenCodingOf (bp : Str) : Str × Str :=
+  if bp ≠ [] then (match split (trimSpace bp) c!" " with | [a, b] => (a, b) | _ => ([], [])) else ([], [])
+
 def parseLocus (locusString : Str) : Outcome Locus :=
   let locusSplit := split (trimSpace locusString) c!" "
   let filtered := locusSplit.filter (· ≠ [])
@@ -198,10 +202,7 @@ def parseLocus (locusString : Str) : Outcome Locus :=
   | some name =>
     -- locusString = " " + strings.Join(filteredLocusSplit[2:], " ") + " "
     let locusString := c!" " ++ join c!" " (filtered.drop 2) ++ c!" "
-    let bp := findBasePair locusString
-    let sp := split (trimSpace bp) c!" "
-    let lenCoding : Str × Str :=
-      if bp ≠ [] then (match sp with | [a, b] => (a, b) | _ => ([], [])) else ([], [])
+    let lenCoding : Str × Str := lenCodingOf (findBasePair locusString)
     .ok { name := name
           seqLength := lenCoding.1
           coding := lenCoding.2
